@@ -1,4 +1,5 @@
 import BreezyVerif.Lemmas.C03Seq
+import BreezyVerif.Lemmas.C03Stacked
 /-
 C03 — theorems.  All repositories, histories (any DAG or even cyclic parent
 map, any number of ghosts), requested revisions and flags are universally
@@ -524,6 +525,51 @@ example : distinctRevs eSrc = true ∧ complete eSrc = true ∧ acyclicBy (fun k
 example : (fetchSeq 2 (.filtered .asFound) true eSrc emptyRepo [(2, false), (7, false), (4, true)]).revs.map (·.1) = [2, 1, 4, 3] ∧
     complete (fetchSeq 2 (.filtered .asFound) true eSrc emptyRepo [(2, false), (7, false), (4, true)]) = true ∧
     complete (fetchSeq 1 .perRevision false eSrc emptyRepo [(2, false), (7, false), (4, true)]) = true := by
+  decide +kernel
+
+/-! ## a source stacked on a fallback, served over the smart server -/
+
+/-- Fetching from a stacked source is fetching from the union: the chain of
+streams (`RemoteStreamSource.missing_parents_chain`: the stacked repository's
+server recreates the search in its own graph, the client refines the search by
+what it saw and what that REFERENCES, the fallback's server recreates the
+refined search) delivers exactly the revisions the search stands for in the
+union graph - for every search (start keys, exclude keys), every history, and
+every split into a stacked part and a self-contained fallback. -/
+theorem stacked_chain_eq_union (st fb : Repo) (hd : disjointRevs st fb = true) (hc : fallbackClosed st fb = true)
+    (start excl : List Rev) (k : Rev) :
+    (k ∈ (chainRevs .allParents st fb start excl).1 ∨ k ∈ (chainRevs .allParents st fb start excl).2) ↔
+      k ∈ served (unionRepo st fb) start excl :=
+  chain_mem_iff st fb hd hc start excl k
+
+/-- … and the revision records and inventories the chain inserts are those a fetch of the same revisions from the union inserts -/
+theorem stacked_chain_records_eq_union (st fb tgt : Repo) (hd : disjointRevs st fb = true)
+    (hai : agreeOn st.invs fb.invs = true)
+    (m1 m2 m : List Rev) (hm1 : ∀ k ∈ m1, hasRev st k = true ∧ (get st.invs k).isSome = true)
+    (hm2 : ∀ k ∈ m2, hasRev fb k = true ∧ (get fb.invs k).isSome = true)
+    (hm : ∀ k, k ∈ m ↔ k ∈ m1 ∨ k ∈ m2) (k : Rev) :
+    get (chainCopy st fb tgt m1 m2).revs k = get (copyE (unionRepo st fb) tgt m []).revs k ∧
+    get (chainCopy st fb tgt m1 m2).invs k = get (copyE (unionRepo st fb) tgt m []).invs k :=
+  chainCopy_eq_union st fb tgt hd hai m1 m2 m hm1 hm2 hm k
+
+/-- trunk 1 ← 2 ← 3 (fallback); feature 4 = [1], 5 = merge [4, 3], 6 = [5] (stacked on trunk) -/
+def sFb : Repo :=
+  { revs := [(1, ⟨[], 10⟩), (2, ⟨[1], 20⟩), (3, ⟨[2], 30⟩)]
+    invs := [(1, []), (2, []), (3, [])], texts := [] }
+
+def sSt : Repo :=
+  { revs := [(4, ⟨[1], 40⟩), (5, ⟨[4, 3], 50⟩), (6, ⟨[5], 60⟩)]
+    invs := [(4, []), (5, []), (6, []), (3, []), (1, [])], texts := [] }
+
+/-- Why the client must record ALL parents of the streamed revisions: if it
+records only the left-hand one, a merge in the stacked part whose right-hand
+parent lives only in the fallback (feature merges trunk) makes the chain miss
+the trunk-only revisions 2 and 3, although the search stands for them. -/
+theorem chain_left_parent_only_witness :
+    disjointRevs sSt sFb = true ∧ fallbackClosed sSt sFb = true ∧ agreeOn sSt.invs sFb.invs = true ∧
+    served (unionRepo sSt sFb) [6] [] = [6, 5, 4, 3, 1, 2] ∧
+    chainRevs .allParents sSt sFb [6] [] = ([6, 5, 4], [3, 1, 2]) ∧
+    chainRevs .leftHandOnly sSt sFb [6] [] = ([6, 5, 4], [1]) := by
   decide +kernel
 
 end BreezyVerif.C03
